@@ -1,6 +1,7 @@
 //! E4 `nodesim`: whole `network::Network` nodes (accept loop, preface, noise, handshakes, pools,
 //! mux, RPCs) over the simulated TCP seam (hook H2), with adversaries built from raw pieces.
 pub mod admission;
+pub mod cluster;
 pub mod sync;
 
 use std::rc::Rc;
@@ -24,6 +25,7 @@ fn run_case_inner(mode: &str, seed: u64, keep_log: bool) -> (CaseResult, Vec<Str
         match mode2.as_str() {
             "admission" => admission::run(seed, sched, keep_log).await,
             "sync" => sync::run(seed, sched, keep_log).await,
+            "cluster" => cluster::run(seed, sched, keep_log).await,
             m => panic!("unknown node mode {m}"),
         }
     });
